@@ -9,6 +9,7 @@ mod c09;
 mod c11;
 mod c14;
 mod c16;
+mod c17;
 mod c18;
 
 use vrt::Tier;
@@ -54,6 +55,7 @@ fn main() {
         "C11" => c11::main(&args),
         "C16" => c16::main(&args),
         "C18" => c18::main(&args),
+        "C17" => c17::main(&args),
         "C14" => c14::main(&args),
         "setup" => {
             // generate and build every quick-tier corpus so that the first quick check is fast
